@@ -300,6 +300,34 @@ Definition last_duplicate_ok (ss : schemas) (lrs : list language_rules) (lang : 
   | _ => true
   end.
 
+(* `compose` as the LAST builder rule: every composed builder (a builder for the source object whose
+   constructor sets the plugin discriminator) sets the identifier of its OWN package's schema.
+   (Not one of the contracts C17 lists; it is judged because the Go code appends to a
+   Constructor.Assignments slice that all composed builders share with the source.) *)
+Definition last_compose_ok (ss : schemas) (lrs : list language_rules) (lang : string) (after : list builder) : bool :=
+  match rev (fst (rules_in_order lrs lang)) with
+  | BRCompose _ c :: _ =>
+      match cut_dot (yc_source c) with
+      | Some (spkg, sname) =>
+          forallb (fun b' =>
+            if seqb (o_selfpkg (b_for b')) spkg && seqb (o_selfname (b_for b')) sname then
+              let consts := filter (fun a => match as_path a, as_value a with
+                                             | [it], AValue None v None => seqb (pi_id it) (yc_disc_field c) && negb (dyn_is_nil v)
+                                             | _, _ => false
+                                             end) (ct_assignments (b_ctor b')) in
+              match consts, locate ss (b_pkg b') with
+              | _ :: _, Some sch =>
+                  if seqb (m_kind (s_meta sch)) "composable" && negb (seqb (m_identifier (s_meta sch)) "") then
+                    existsb (fun a => match as_value a with AValue None v None => dyn_eqb v (DStr (m_identifier (s_meta sch))) | _ => false end) consts
+                  else true
+              | _, _ => true
+              end
+            else true) after
+      | None => true
+      end
+  | _ => true
+  end.
+
 (* ---------------------------------------------------------------- verdicts on one case *)
 Definition in_claim (c : vcase) : bool :=
   aliases_acyclic (c_ss c) && consistent (c_ss c) (c_before c) && WTs (c_ss c) (c_before c).
@@ -321,7 +349,19 @@ Definition pf_contract (c : vcase) : bool :=
             | Some (inl r) => builder_contract (c_ss c) r (c_before c) bs
             | Some (inr r) => option_contract (or_action r) (or_sel r) (c_before c) bs
             | None => true
-            end && last_duplicate_ok (c_ss c) lrs (c_lang c) bs)
+            end)
+  | _, _ => false
+  end.
+Definition pf_last_duplicate (c : vcase) : bool :=
+  in_claim c &&
+  match c_after c, rewriter_from (c_files c) with
+  | Ok bs, Ok lrs => negb (last_duplicate_ok (c_ss c) lrs (c_lang c) bs)
+  | _, _ => false
+  end.
+Definition pf_last_compose (c : vcase) : bool :=
+  in_claim c &&
+  match c_after c, rewriter_from (c_files c) with
+  | Ok bs, Ok lrs => negb (last_compose_ok (c_ss c) lrs (c_lang c) bs)
   | _, _ => false
   end.
 Definition ven_in_claim (c : vcase) : bool := in_claim c.
@@ -334,3 +374,147 @@ Definition ven_selects (c : vcase) : bool :=
                                 existsb (fun o => negb (option_never_selected ors b o)) (b_options b)) (c_before c)
   | _ => false
   end.
+
+(* ---------------------------------------------------------------- diagnosis (only to name what fails; uses the model) *)
+Definition brule_kind (r : brule) : string :=
+  match r with
+  | BROmit _ => "omit" | BRRename _ _ => "rename" | BRMergeInto _ _ _ _ _ => "merge_into" | BRCompose _ _ => "compose"
+  | BRProperties _ _ => "properties" | BRDuplicate _ _ _ => "duplicate" | BRInitialize _ _ => "initialize"
+  | BRPromote _ _ => "promote_options_to_constructor" | BRAddOption _ _ => "add_option" | BRAddFactory _ _ => "add_factory"
+  end.
+Definition oaction_kind (a : oaction) : string :=
+  match a with
+  | AOmit => "omit" | ARename _ => "rename" | ARenameArguments _ => "rename_arguments" | AUnfoldBoolean _ _ => "unfold_boolean"
+  | AStructFieldsAsArguments _ => "struct_fields_as_arguments" | AStructFieldsAsOptions _ => "struct_fields_as_options"
+  | AArrayToAppend => "array_to_append" | AMapToIndex => "map_to_index" | ADisjunctionAsOptions _ => "disjunction_as_options"
+  | ADuplicate _ => "duplicate" | AAddAssignment _ => "add_assignment" | AAddComments _ => "add_comments"
+  end.
+
+(* the states after every rule application, as the model computes them: (rule kind, builders, write reached a sharer) *)
+Definition tstep := (string * list lbuilder * bool)%type.
+Fixpoint trace_builder_rules (ss : schemas) (t : nat) (rs : list brule) (bs : list lbuilder) (acc : list tstep) : list tstep * option (list lbuilder) :=
+  match rs with
+  | [] => (acc, Some bs)
+  | r :: rest => match apply_builder_rule ss t r bs with
+                 | Ok bs' => trace_builder_rules ss (S t) rest bs' (acc ++ [(String.append "builder:" (brule_kind r), bs', false)])
+                 | _ => (acc, None)
+                 end
+  end.
+Fixpoint trace_option_rules (ss : schemas) (t : nat) (rs : list orule) (bs : list lbuilder) (acc : list tstep) : list tstep * option (list lbuilder) :=
+  match rs with
+  | [] => (acc, Some (filter has_options bs))
+  | r :: rest => match apply_option_rule ss t r bs false with
+                 | Ok (bs', fl) => trace_option_rules ss (S t) rest bs' (acc ++ [(String.append "option:" (oaction_kind (or_action r)), bs', fl)])
+                 | _ => (acc, None)
+                 end
+  end.
+Definition trace_language (ss : schemas) (t : nat) (lrs : list language_rules) (l : string) (bs : list lbuilder) (acc : list tstep)
+  : list tstep * option (list lbuilder) :=
+  let brs := builder_rules_for l lrs in
+  match trace_builder_rules ss t brs bs acc with
+  | (acc1, Some bs1) => trace_option_rules ss (t + List.length brs) (option_rules_for l lrs) bs1 acc1
+  | (acc1, None) => (acc1, None)
+  end.
+Definition trace (ss : schemas) (files : list vfile) (lang : string) (bs : list builder) : list tstep :=
+  match rewriter_from files with
+  | Ok lrs =>
+      match trace_language ss 1 lrs all_languages (label_builders 0 bs) [] with
+      | (acc, Some bs1) => fst (trace_language ss (1 + rules_count lrs all_languages) lrs lang bs1 acc)
+      | (acc, None) => acc
+      end
+  | _ => []
+  end.
+
+(* why is a builder not well-typed? 1 = a path is not a chain of fields, 2 = an assignment uses an
+   undeclared argument as its value or index, 3 = only a constraint refers to an undeclared argument *)
+Definition assignment_reason (ss : schemas) (root : ty) (args : list argument) (a : assignment) : nat :=
+  if negb (path_ok ss root (as_path a) && avalue_paths_ok ss (as_value a)) then 1
+  else if negb (forallb (arg_declared args) (path_args (as_path a) ++ avalue_args (as_value a))) then 2
+  else if negb (forallb (arg_declared args) (map ac_arg (as_constraints a))) then 3 else 0.
+Definition builder_reason (ss : schemas) (b : builder) : nat :=
+  let rs := map (assignment_reason ss (o_type (b_for b)) (ct_args (b_ctor b))) (ct_assignments (b_ctor b)) ++
+            flat_map (fun o => map (assignment_reason ss (o_type (b_for b)) (op_args o)) (op_assignments o)) (b_options b) in
+  match filter (fun n => negb (Nat.eqb n 0)) rs with n :: _ => n | [] => 0 end.
+Definition builders_reason (ss : schemas) (bs : list builder) : nat :=
+  match filter (fun n => negb (Nat.eqb n 0)) (map (builder_reason ss) bs) with n :: _ => n | [] => 0 end.
+
+Definition first_step {A} (bad : A -> bool) (l : list A) : option A := find bad l.
+
+(* code = 100 * reason + (1 if a write reached a sharer in that step) ; plus the rule kind *)
+Definition wt_culprit (c : vcase) : option (string * nat) :=
+  match first_step (fun s : tstep => negb (WTs (c_ss c) (erase_builders (snd (fst s))))) (trace (c_ss c) (c_files c) (c_lang c) (c_before c)) with
+  | Some (k, bs, fl) => Some (k, 100 * builders_reason (c_ss c) (erase_builders bs) + (if fl then 1 else 0))
+  | None => None
+  end.
+Definition frame_culprit (c : vcase) : option (string * nat) :=
+  match rewriter_from (c_files c) with
+  | Ok lrs =>
+      match first_step (fun s : tstep => negb (frame_ok (c_ss c) lrs (c_lang c) (c_before c) (erase_builders (snd (fst s)))))
+                       (trace (c_ss c) (c_files c) (c_lang c) (c_before c)) with
+      | Some (k, _, fl) => Some (k, if fl then 1 else 0)
+      | None => None
+      end
+  | _ => None
+  end.
+
+(* culprits as numbers (the case evaluator only transports lists of nat): 1000 * kind + code *)
+Definition all_kinds : list string :=
+  ["builder:omit"; "builder:rename"; "builder:merge_into"; "builder:compose"; "builder:properties"; "builder:duplicate";
+   "builder:initialize"; "builder:promote_options_to_constructor"; "builder:add_option"; "builder:add_factory";
+   "option:omit"; "option:rename"; "option:rename_arguments"; "option:unfold_boolean"; "option:struct_fields_as_arguments";
+   "option:struct_fields_as_options"; "option:array_to_append"; "option:map_to_index"; "option:disjunction_as_options";
+   "option:duplicate"; "option:add_assignment"; "option:add_comments"].
+Fixpoint index_of (s : string) (l : list string) (i : nat) : nat :=
+  match l with [] => i | x :: r => if seqb x s then i else index_of s r (S i) end.
+Definition culprit_code (x : option (string * nat)) : nat :=
+  match x with Some (k, n) => 1000 * index_of k all_kinds 0 + n | None => 1000 * 99 end.
+Definition codes (f : vcase -> bool) (g : vcase -> option (string * nat)) (cs : list vcase) : list nat :=
+  map (fun c => culprit_code (g c)) (filter f cs).
+
+(* ---------------------------------------------------------------- rules that cannot break well-typedness, whatever their parameters *)
+Definition wt_safe_brule (r : brule) : bool :=
+  match r with
+  | BROmit _ | BRRename _ _ | BRProperties _ _ | BRDuplicate _ _ _ | BRInitialize _ _ | BRAddFactory _ _ => true
+  | _ => false
+  end.
+Definition wt_safe_action (a : oaction) : bool :=
+  match a with AOmit | ARename _ | AAddComments _ | ADuplicate _ => true | _ => false end.
+Definition wt_safe_rules (lrs : list language_rules) : bool :=
+  forallb (fun lr => forallb wt_safe_brule (lr_builder_rules lr) && forallb (fun r => wt_safe_action (or_action r)) (lr_option_rules lr)) lrs.
+
+(* statements about labelled builders *)
+Definition lWT (ss : schemas) (b : lbuilder) : Prop := WT ss (erase_builder b) = true.
+(* every builder describes the object of the schemas it names *)
+Definition lconsistent (ss : schemas) (bs : list lbuilder) : Prop :=
+  forall b, In b bs -> locate_object ss (o_selfpkg (lb_for b)) (o_selfname (lb_for b)) = Some (lb_for b).
+Definition lsame_but_options (a b : lbuilder) : Prop :=
+  lb_for a = lb_for b /\ lb_pkg a = lb_pkg b /\ lb_name a = lb_name b /\ lb_props a = lb_props b /\
+  lb_ctor a = lb_ctor b /\ lb_factories a = lb_factories b.
+
+(* ---------------------------------------------------------------- everything about one case in one number
+   1 mismatch  2 interference  4 in claim  8 WT fails  16 frame fails  32 contract fails
+   64 single-rule run  128 something is selected and some builder has two or more options
+   256 the rule files load  512 the unshared model differs from the implementation
+   1024 duplicate as last rule: copy differs  2048 compose as last builder rule: wrong discriminator *)
+Definition bit (b : bool) (n : nat) : nat := if b then n else 0.
+Definition ven_code (c : vcase) : nat :=
+  let perm := existsb file_has_compose (c_files c) in
+  let cmp := if perm then perm_eqb builder_eqb else builders_eqb in
+  let run := apply_to_l true (c_ss c) (c_files c) (c_lang c) (c_before c) in
+  let out := match run with Ok o => Ok (erase_builders (fst o)) | Err e => Err e | Panic w => Panic w | OutOfFuel => OutOfFuel end in
+  let itf := match run with Ok o => snd o | _ => false end in
+  bit (negb (res_eqb cmp out (c_after c))) 1 + bit itf 2 + bit (in_claim c) 4 + bit (pf_wt c) 8 + bit (pf_frame c) 16 +
+  bit (pf_contract c) 32 + bit (ven_single c) 64 +
+  bit (ven_selects c && existsb (fun b => Nat.leb 2 (List.length (b_options b))) (c_before c)) 128 +
+  bit (match rewriter_from (c_files c) with Ok _ => true | _ => false end) 256 +
+  bit (itf && ven_mismatch_unshared c) 512 + bit (pf_last_duplicate c) 1024 + bit (pf_last_compose c) 2048.
+Definition ven_codes (cs : list vcase) : list nat := map ven_code cs.
+
+(* ---------------------------------------------------------------- the rule registries the model and the harness know
+   (the constructors of ybmember / yomember, in the order of the Go struct declarations) *)
+Definition model_builder_members : list string :=
+  ["omit"; "rename"; "merge_into"; "compose"; "properties"; "duplicate"; "initialize"; "promote_options_to_constructor";
+   "add_option"; "add_factory"].
+Definition model_option_members : list string :=
+  ["omit"; "rename"; "rename_arguments"; "unfold_boolean"; "struct_fields_as_arguments"; "struct_fields_as_options";
+   "array_to_append"; "map_to_index"; "disjunction_as_options"; "duplicate"; "add_assignment"; "add_comments"].
